@@ -9,7 +9,7 @@ pub mod time {
     pub uninterp spec fn rfc3339_text(instant: int) -> Seq<char>; // what format(&Rfc3339) prints
     pub broadcast axiom fn ax_rfc3339_text_parses(t: int)
         requires formattable(t)
-        ensures #[trigger] rfc3339_instant(rfc3339_text(t)) == Some(t), crate::iso8601::iso_prefix_ok(rfc3339_text(t));
+        ensures rfc3339_instant(#[trigger] rfc3339_text(t)) == Some(t), crate::iso8601::iso_prefix_ok(rfc3339_text(t));
     #[verifier::external_body]
     #[derive(Clone, Copy)]
     pub struct OffsetDateTime { _x: u8 }
